@@ -434,6 +434,11 @@ def run(ctx):
     ctx.explanation = EXPL
     ctx.trusted = ['rustc nightly MIR construction', 'heed put/delete/prefix_iter semantics']
     ctx.assumptions = ['heed::Database::delete returns true iff a key was removed']
+    rules(ctx)
+
+
+def rules(ctx):
+    """the structural clauses of C06 (also re-evaluated by properties that rely on "a committed version is complete")"""
     r_mark(ctx)
     r_open(ctx)
     r_need_build(ctx)
